@@ -96,6 +96,8 @@ def datestr(days):
 
 
 # ------------------------------------------------------------------------------------ generator
+MTYPES = [3, 3, 3, 0, 1, 2]          # a third of the typed records: fatal most often (the one a sink is tempted to special-case)
+MTYPE_NAME = {0: 'debug', 1: 'warning', 2: 'critical', 3: 'fatal', 4: 'info'}
 L_SET = [1, 2, 8, 64, 4096, 12, 16, 30]
 N_SET = [-1, 0, 1, 2, 3, 5]
 
@@ -188,7 +190,10 @@ def gen_case(rng, thorough=False):
             else:
                 tag = b'r%d.' % len([o for o in ops if o[0] == 'w'])
                 p = (tag + b'y' * n)[:n]
-            ops.append(('w', p))
+            # the QtMsgType of the record (0 debug 1 warning 2 critical 3 fatal 4 info): the sink must not look at it; the
+            # third field is only present when the type is not info (older corpus cases have two fields)
+            ty = rng.choice(MTYPES) if rng.random() < 0.3 else 4
+            ops.append(('w', p) if ty == 4 else ('w', p, ty))
         elif x < 0.82:
             dt = rng.choice([0, 1, 5, 999, 1000, 1001, DAY, DAY, 2 * DAY, 3 * DAY, DAY - 1,
                              DAY - t % DAY, DAY - t % DAY - 1, DAY - (t + off) % DAY, DAY - (t + off) % DAY - 1, 30 * DAY]
@@ -223,7 +228,9 @@ def lines_of(case, for_impl):
     k = 0
     for o in case['ops']:
         if o[0] in ('w', 'w2'):
-            ls.append(o[0] + ' ' + hx(o[1]))
+            ls.append(o[0] + ' ' + hx(o[1]) + (' %d' % o[2] if len(o) > 2 else ''))
+        elif o[0] == 'wo':
+            ls.append('wo %s %s' % (hx(o[1]), hx(o[2])) + (' %d' % o[3] if len(o) > 3 else ''))
         elif o[0] == 'sparse':
             ls.append('sparse %d' % o[1])
         elif o[0] == 'end':
@@ -505,8 +512,11 @@ def same_dirs(case, a, b):
 def show_op(o):
     if o is None:
         return 'construct'
-    if o[0] in ('w',):
-        return 'w %r' % (o[1][:40],) + ('...(%d bytes)' % len(o[1]) if len(o[1]) > 40 else '')
+    if o[0] in ('w', 'w2'):
+        return '%s %r' % (o[0], o[1][:40]) + ('...(%d bytes)' % len(o[1]) if len(o[1]) > 40 else '') + \
+            (' type=%s' % MTYPE_NAME.get(o[2], o[2]) if len(o) > 2 else '')
+    if o[0] == 'wo':
+        return 'write through another sink on %r: %r' % (o[1], o[2][:40])
     if o[0] == 'put':
         return 'put %r' % (o[1],)
     if o[0] == 'seed':
@@ -628,6 +638,174 @@ def probe_huge_sparse_file(chk, impl):
                      'file rotated and the record alone in a new active file, found %s' % (L, L - 10, [(n.decode(), sz) for n, sz in sizes]),
                      {'kind': 'size-near-int-max', 'case': case_json(case), 'L': L, 'N': 3, 'options': 0,
                       'files_and_sizes': [(n.decode(), sz) for n, sz in sizes]}, kind='size-near-int-max')
+    return found
+
+
+def probe_huge_file_daily(chk, impl):
+    """C09 with an active file of 2 GiB and more (outside the model: a SPARSE file whose content is never read), size limit OFF
+    (L = 0 is the only way such a file arises: L is an int), daily rotation: a record is written on day 1, the file is extended
+    to S bytes, the clock moves to the next day (in one variant the sink is also restarted) and one more record is written.
+    The big file must be rotated under day 1's name and the new record must be alone in the active file."""
+    found = 0
+    nm = Names(b'big', b'log')
+    t0 = 19700 * DAY + 5000
+    for S, restart in ((1 << 31, False), ((1 << 31) + 4096, True), ((1 << 32) - 1, False), (1 << 32, True), ((1 << 32) + (1 << 31) + 7, False)):
+        case = {'L': 0, 'N': 0, 'opts': 2, 'gran': 1, 'base': b'big', 'suffix': b'log', 't0': t0, 'tz': 0,
+                'ops': [('w', b'day1 record'), ('sparse', S), ('adv', DAY)] + ([('restart',)] if restart else []) + [('w', b'day2 record')]}
+        ls, _ = run_impl_one(impl, case)
+        if len(ls) != len(case['ops']) + 1:
+            chk.broke('huge-file daily probe: harness produced no listing', {'kind': 'harness', 'case': case_json(case)}); continue
+        before = sorted((n, len(c) if not c.startswith(b'@') else int(c[1:])) for (n, _, c) in ls[-2])
+        if before != [(nm.active, S)]:
+            chk.broke('huge-file daily probe: could not create a sparse file of %d bytes in the scratch directory (found %s)' % (S, before),
+                      {'kind': 'harness', 'case': case_json(case)}); continue
+        sizes = sorted((n, len(c) if not c.startswith(b'@') else int(c[1:])) for (n, _, c) in ls[-1])
+        want = sorted([(nm.rotated(datestr(19700), b'1'), S), (nm.active, len(b'day2 record\n'))])
+        act = [c for (n, _, c) in ls[-1] if n == nm.active]
+        if sizes != want or act != [b'day2 record\n']:
+            found += 1
+            chk.fail('C09 falsified on the real RotatingFileSink: daily rotation, no size limit (L=0 N=0 options=2), active file of %d bytes '
+                     '(>= 2 GiB) holding a record of 2023-12-09; one record written on 2023-12-10%s: expected the big file under the name %s '
+                     'and the new record alone in big.log, found %s - records of two calendar days share a file' % (
+                         S, ' by a restarted sink' if restart else '', want[0][0].decode(), [(n.decode(), sz) for n, sz in sizes]),
+                     {'kind': 'daily-rotation-file-over-2gib', 'case': case_json(case), 'L': 0, 'N': 0, 'options': 2, 'active_file_bytes': S,
+                      'restart_before_the_new_day_record': restart, 'ops_readable': [show_op(o) for o in case['ops']],
+                      'expected_files_and_sizes': [(n.decode(), sz) for n, sz in want],
+                      'files_and_sizes': [(n.decode(), sz) for n, sz in sizes]}, kind='daily-rotation-file-over-2gib')
+    return found
+
+
+def _perspective(case, ls, mine, main):
+    """the case and listings as the sink `mine` ((base, suffix)) sees them: the files of the OTHER sinks of the probe are theirs
+    (filtered out of the listings), their writes are no-ops for this sink"""
+    nms = {k: Names(*k) for k in set([main] + [o[1] for o in case['ops'] if o[0] == 'wo_'])}
+    def owner(n):
+        for k, nm in nms.items():
+            if n == nm.active or nm.parse(n):
+                return k
+        return None
+    ops = []
+    for o in case['ops']:
+        if o[0] == 'w':
+            ops.append(o if mine == main else ('adv', 0))
+        elif o[0] == 'wo_':
+            ops.append(('w', o[2]) if o[1] == mine else ('adv', 0))
+        elif o[0] == 'seed':
+            ops.append(o if nms[mine].parse(o[1]) else ('adv', 0))
+        else:
+            ops.append(o)
+    sub = dict(case, base=mine[0], suffix=mine[1], ops=ops)
+    nm = nms[mine]
+    lss = []
+    for l in ls:
+        keep = []
+        for (n, mt, c) in l:
+            if owner(n) in (mine, None):
+                p = nm.parse(n)
+                if p and p['gz'] and owner(n) == mine and mine != main:       # run_impl_one decoded with the main sink's names
+                    try:
+                        c = gzip.decompress(c)
+                    except Exception:
+                        pass
+                keep.append((n, mt, c))
+        lss.append(sorted(keep))
+    return sub, lss
+
+
+def probe_unrelated_sinks_share_nothing(chk, impl, model, pid):
+    """C05 C06 C07 C09 (oracle only, outside the model): TWO sinks of one process on DIFFERENT log files of one directory, written
+    alternately; one of them starts over rotated files an earlier run left (same date, indices 1..k).  Each sink must behave as
+    if it were alone: the oracle is evaluated on each sink's own files (the other sink's files are not this sink's business).
+    State shared between sink objects (a process-wide cache of the next index, of the file list, of the current date) shows
+    here: the second sink takes an index the first one handed out, the rename onto an existing file is refused, and the file
+    keeps growing across the day change / past L."""
+    found = 0
+    main, other = (b'my.app', b'log'), (b'audit', b'log')
+    day0 = 19700
+    for (L, N, opts, gran, nseed, seed_main) in ((0, 0, 2, 1, 2, True), (16, 0, 2, 1000, 3, False), (16, 4, 0, 1, 2, True), (12, 0, 6, 1, 2, False),
+                                                 (0, 5, 3, 1000, 1, True)):
+        seeded, walker = (main, other) if seed_main else (other, main)
+        nms = Names(*seeded)
+        case = {'L': L, 'N': N, 'opts': opts, 'gran': gran, 'base': main[0], 'suffix': main[1], 't0': day0 * DAY + 40000000, 'tz': 0, 'ops': []}
+        ops = [('seed', nms.rotated(datestr(day0), b'%d' % (i + 1), bool(opts & 4))) for i in range(nseed)]
+        k = [0]
+        def w(who, n=9):
+            k[0] += 1
+            p = (b'r%d.' % k[0] + b'y' * n)[:n]
+            return ('w', p) if who == main else ('wo_', who, p)
+        # day 0: both write (with a size limit the walker rotates here already and primes whatever is shared)
+        ops += [w(walker), w(seeded), w(walker), w(walker), w(seeded)]
+        ops += [('adv', DAY)]
+        if opts & 1:
+            ops += [('restart',)]
+        # day 1: the walker first (its rotation is named after day 0), then the sink that has day-0 files of an earlier run
+        ops += [w(walker), w(seeded), w(seeded), w(walker), w(seeded), ('adv', 1000), w(walker), w(seeded)]
+        case['ops'] = ops
+        wire = dict(case, ops=[('wo', Names(*o[1]).active, o[2]) if o[0] == 'wo_' else o for o in ops])
+        ls, _ = run_impl_one(impl, wire)
+        if len(ls) != len(ops) + 1:
+            chk.broke('unrelated-sinks probe: harness produced no listing', {'kind': 'harness', 'case': case_json(wire)}); continue
+        for mine in (seeded, walker):
+            sub, lss = _perspective(case, ls, mine, main)
+            bits, _, _, _ = verdicts(sub, model, lss, pid)
+            fb = first_bad(bits, BIT[pid])
+            if fb is not None:
+                found += 1
+                chk.fail('%s falsified on the real RotatingFileSink: two sinks of one process on two log files of one directory (%s and %s; L=%d N=%d '
+                         'options=%d), %s starts over %d rotated file(s) of an earlier run dated like its active file; the oracle on the files of %s '
+                         'is false after operation %d (%s): the sink objects are not independent of each other' % (
+                             pid, Names(*main).active.decode(), Names(*other).active.decode(), L, N, opts, Names(*seeded).active.decode(), nseed,
+                             Names(*mine).active.decode(), fb, show_op(([None] + list(sub['ops']))[fb])),
+                         {'kind': 'unrelated-sinks-not-independent', 'case': case_json(wire), 'L': L, 'N': N, 'options': opts, 'granularity_ms': gran,
+                          'sink_under_observation': Names(*mine).active.decode(), 'first_bad_step': fb,
+                          'ops_readable': [show_op(o) for o in wire['ops']],
+                          'oracle_bits_per_step(c05,c06,c07,c09)': bits,
+                          'directory_at_failure': show_listing(ls[fb]), 'directory_before': show_listing(ls[fb - 1]) if fb else None},
+                         kind='unrelated-sinks-not-independent')
+                break
+    return found
+
+
+def probe_plain_and_gz_twin(chk, impl, model):
+    """C06 (model and oracle): an earlier life of the sink left BOTH <base>.<date>.<i>.<suffix> and the same name + .gz (a crash
+    between closing the .gz and removing the original, or `gzip -dk`): two files that follow the sink's scheme and share (date,
+    index).  Retention must count both: at most N files after every write that rotated, victims oldest first (the plain name
+    sorts before its .gz twin)."""
+    found = 0
+    for (base, suffix, N, opts, twin_idx, others) in ((b'my.app', b'log', 4, 0, b'1', [b'2']), (b'applog', b'', 3, 4, b'2', [b'1']),
+                                                        (b'my.app', b'log', 2, 0, b'1', []), (b'a+b', b'txt', 5, 1, b'3', [b'1', b'2'])):
+        nm = Names(base, suffix)
+        day0 = 19700
+        d = datestr(day0 - 1)
+        seeds = sorted([nm.rotated(d, twin_idx, False), nm.rotated(d, twin_idx, True)] + [nm.rotated(d, i, bool(opts & 4)) for i in others],
+                       key=lambda n: (nm.parse(n)['idx'], n))
+        case = {'L': 8, 'N': N, 'opts': opts, 'gran': 1000, 'base': base, 'suffix': suffix, 't0': day0 * DAY + 5000, 'tz': 0,
+                'ops': [('seed', n) for n in seeds] + [('w', b'r%d.yyyy' % i) for i in range(2 * N + 3)]}
+        ls, _ = run_impl_one(impl, case)
+        if len(ls) != len(case['ops']) + 1:
+            chk.broke('twin probe: harness produced no listing', {'kind': 'harness', 'case': case_json(case)}); continue
+        bits, _, _, _ = verdicts(case, model, ls, 'C06')
+        fb = first_bad(bits, BIT['C06'])
+        mo = run_exec(model, [lines_of(case, False)], (), chunks=1)[0][0]
+        ml = [parse_listing(l, nm, False) for l in (mo or [])]
+        if fb is not None:
+            found += 1
+            nfiles = len(ls[fb])
+            chk.fail('C06 falsified on the real RotatingFileSink: L=8 N=%d options=%d file=%s; an earlier life left %s - a plain file and its .gz twin '
+                     'with the same date and index, both names of the sink\'s scheme; after operation %d (%s) the directory holds %d log files '
+                     '(limit %d) or a file older than a removed one survives' % (N, opts, nm.active.decode(), [n.decode() for n in seeds], fb,
+                                                                                    show_op(([None] + list(case['ops']))[fb]), nfiles, N),
+                     {'kind': 'plain-and-gz-twin', 'case': case_json(case), 'L': 8, 'N': N, 'options': opts, 'first_bad_step': fb,
+                      'log_files_at_failure': nfiles, 'ops_readable': [show_op(o) for o in case['ops']],
+                      'oracle_bits_per_step(c05,c06,c07,c09)': bits,
+                      'implementation_listing_at_failure': show_listing(ls[fb]),
+                      'model_listing_at_failure': show_listing(ml[fb]) if fb < len(ml) else None}, kind='plain-and-gz-twin')
+        elif ml != ls:
+            i = [a == b for a, b in zip(ls, ml)].index(False) if len(ml) == len(ls) and ml != ls else min(len(ml), len(ls))
+            chk.broke('correspondence (plain/.gz twin probe): model and RotatingFileSink directories differ after operation %d of a case with '
+                      'L=8 N=%d options=%d' % (i, N, opts),
+                      {'kind': 'correspondence', 'case': case_json(dict(case, ops=case['ops'][:i])), 'step': i,
+                       'implementation': show_listing(ls[i]) if i < len(ls) else None, 'model': show_listing(ml[i]) if i < len(ml) else None})
     return found
 
 
@@ -774,10 +952,13 @@ def run_check(pid):
     if pid == 'C06':
         chk.cov['newline_lookalike_probe_failures'] = probe_newline_lookalike(chk, impl, model)
         chk.cov['two_sink_objects_probe_failures'] = probe_two_sink_objects(chk, impl, model)
+        chk.cov['plain_and_gz_twin_probe_failures'] = probe_plain_and_gz_twin(chk, impl, model)
     if pid == 'C07':
         chk.cov['huge_sparse_file_probe_failures'] = probe_huge_sparse_file(chk, impl)
     if pid == 'C09':
         chk.cov['buffered_record_crosses_midnight_probe_failures'] = probe_buffered_record_crosses_midnight(chk, impl, model)
+        chk.cov['huge_file_daily_probe_failures'] = probe_huge_file_daily(chk, impl)
+    chk.cov['unrelated_sinks_probe_failures'] = probe_unrelated_sinks_share_nothing(chk, impl, model, pid)
     if not shape_std and not falsified and not disagreements:
         chk.broke('the decision shapes translated from the source differ from the proven ones but no difference was observed', {'kind': 'shape'})
 
@@ -787,12 +968,18 @@ def run_check(pid):
             k = str(f(c)); h[k] = h.get(k, 0) + 1
         return h
     bnd, kinds, cross, ticks, jumps, predated, tzdiff = {}, {}, {'9->10': 0, '99->100': 0}, 0, 0, 0, 0
+    mtypes, fatal_at_limit = {}, 0
     for c, (ol, infos) in zip(cases, olines):
         last_rot_t, t = None, c['t0']
         for k, o in enumerate(c['ops']):
             kinds[o[0]] = kinds.get(o[0], 0) + 1
             if o[0] == 'w' and (t + c.get('tz', 0) * 60000) // DAY != t // DAY:
                 tzdiff += 1
+            if o[0] == 'w':
+                ty = MTYPE_NAME[o[2] if len(o) > 2 else 4]
+                mtypes[ty] = mtypes.get(ty, 0) + 1
+                if ty == 'fatal' and infos and k + 1 < len(infos) and infos[k + 1]['new_rot']:
+                    fatal_at_limit += 1
             if o[0] == 'w' and c['L'] > 0:
                 d = len(o[1]) + 1 - c['L']
                 if -2 <= d <= 2:
@@ -831,6 +1018,7 @@ def run_check(pid):
         'quiet_cases_looked_at_only_at_the_end': sum(1 for c in cases if c.get('quiet')),
         'writes_while_local_date_differs_from_utc_date': tzdiff, 'file_name_histogram': hist(lambda c: Names(c['base'], c['suffix']).active.decode()),
         'seeded_cases': sum(1 for c in cases if any(o[0] == 'seed' for o in c['ops'])),
+        'message_type_histogram': mtypes, 'fatal_records_that_rotated': fatal_at_limit,
         'op_kind_histogram': kinds, 'record_length_minus_L_hits': bnd, 'index_crossings': cross,
         'rotations_within_the_same_coarse_tick': ticks, 'day_jumps': jumps, 'restarts_with_predated_active_file': predated,
         'run_wall_s': round(t_run, 1)})
